@@ -45,6 +45,10 @@ def gen_scenarios(seed, tier):
                  before=chain(rng.choice([0, 0, 1, 2])), after=chain(rng.choice([0, 1, 1, 2, 3])),
                  flat=rng.random() < 0.3, callable=rng.choice(["function", "partial", "partial-kw", "object", "bound"]),
                  script=[rng.choice(["ok", "ok", "err"]) for _ in range(4)], seed=rng.randrange(1 << 30))
+        if d["flat"] and d["callable"] != "bound" and rng.random() < 0.4:
+            # the callable hands back a future that is ALREADY CANCELLED (or one that is cancelled on some attempts): both forms must
+            # end cancelled - not "failed with CancelledError" - or agree on whatever the layers above make of it
+            d["script"] = [rng.choice(["canc", "canc", "ok", "err"]) for _ in range(4)]
         d.update(schedule_modes(rng))
         d["trace_lines"] = rng.random() < 0.3
         yield d
@@ -93,7 +97,7 @@ def canon(v):
 
 def body_for(desc, ctx):
     from more_executors import Executors
-    from more_executors.futures import f_return, f_return_error
+    from more_executors.futures import f_return, f_return_error, f_return_cancelled
 
     def body(s, w):
         ctx.results = {}
@@ -110,6 +114,8 @@ def body_for(desc, ctx):
                 if desc["flat"] and desc["callable"] != "bound":
                     if oc == "ok":
                         return f_return(("v", x))
+                    if oc == "canc":
+                        return f_return_cancelled()
                     return f_return_error(EXC["E0"]("a%d" % i))
                 if oc == "ok":
                     return ("v", x)
